@@ -2123,4 +2123,66 @@ theorem u32CTZ_fast_gen (x : Nat) (hx : x < 2 ^ 32) : CtzSpec 32 x (u32CTZ_fast 
   obtain ⟨d4, h4⟩ := ctz_stage (N := 32) (s := 2) h3
   exact ctz_fin (N := 32) (by decide) hx h4
 
+
+/-! ## wwIsW, wwIsRepW -/
+
+theorem foldl_and_all (p : Nat → Bool) : ∀ (l : List Nat) (b : Bool),
+    l.foldl (fun r y => r && p y) b = (b && l.all p) := by
+  intro l
+  induction l with
+  | nil => intro b; simp
+  | cons y ys ih => intro b; simp [List.foldl_cons, ih, Bool.and_assoc]
+
+theorem isW_fastLoop_eq : ∀ (l : List Nat) (b : Bool),
+    wwIsW_fastLoop b l = (b && l.all (· == 0)) := by
+  intro l
+  induction l with
+  | nil => intro b; simp [wwIsW_fastLoop]
+  | cons y ys ih =>
+    intro b
+    cases b
+    · simp [wwIsW_fastLoop]
+    · simp [wwIsW_fastLoop, ih]
+
+theorem isRepW_fastLoop_eq (x : Nat) : ∀ (l : List Nat),
+    wwIsRepW_fastLoop x l = l.all (· == x) := by
+  intro l
+  induction l with
+  | nil => simp [wwIsRepW_fastLoop]
+  | cons y ys ih =>
+    by_cases h : y = x
+    · simp [wwIsRepW_fastLoop, h, ih]
+    · simp [wwIsRepW_fastLoop, h]
+
+theorem wwIsW_both (a : List Nat) (x : Nat) :
+    wwIsW_fast a x = wwIsW_safe a x ∧
+    (wwIsW_safe a x = true ↔
+      (a = [] ∧ x = 0) ∨ (∃ as, a = x :: as ∧ ∀ y ∈ as, y = 0)) := by
+  cases a with
+  | nil => simp [wwIsW_safe, wwIsW_fast]
+  | cons a0 as =>
+    simp only [wwIsW_safe, wwIsW_fast, isW_fastLoop_eq, foldl_and_all, List.all_reverse]
+    refine ⟨trivial, ?_⟩
+    simp only [Bool.and_eq_true, beq_iff_eq, List.all_eq_true]
+    constructor
+    · intro ⟨h1, h2⟩
+      exact Or.inr ⟨as, by rw [h1], h2⟩
+    · intro h
+      rcases h with ⟨h1, _⟩ | ⟨as', h1, h2⟩
+      · cases h1
+      · cases h1
+        exact ⟨rfl, h2⟩
+
+theorem wwIsRepW_both (a : List Nat) (x : Nat) :
+    wwIsRepW_fast a x = wwIsRepW_safe a x ∧
+    (wwIsRepW_safe a x = true ↔ (a = [] ∧ x = 0) ∨ (a ≠ [] ∧ ∀ y ∈ a, y = x)) := by
+  cases a with
+  | nil => simp [wwIsRepW_safe, wwIsRepW_fast]
+  | cons a0 as =>
+    simp only [wwIsRepW_safe, wwIsRepW_fast, isRepW_fastLoop_eq, foldl_and_all, List.all_reverse]
+    constructor
+    · simp [Bool.and_comm]
+    · simp
+
+
 end Bee2V.C05
